@@ -17,11 +17,13 @@ pub enum ReqFraming {
 }
 
 /// A request plus the body payload the caller will send.
-#[derive(Clone, Debug)]
+#[derive(Clone)]
 pub struct ReqSpec {
     pub cfg: ReqCfg,
     pub body: Vec<u8>,
     pub label: String,
+    /// optional custom construction of the Prepare flow (cfg then only models the effective request)
+    pub prep: Option<crate::exch::PrepFn>,
 }
 
 pub fn req(method: &str, version: &str, framing: ReqFraming, body_len: usize, expect: bool, conn_close: bool, despite: bool) -> ReqSpec {
@@ -44,7 +46,7 @@ pub fn req(method: &str, version: &str, framing: ReqFraming, body_len: usize, ex
     }
     cfg = cfg.orig("x-trace", "t1").despite(despite);
     let label = format!("{} HTTP/{} {:?} body={} expect={} close={} despite={}", method, version, framing, blen, expect, conn_close, despite);
-    ReqSpec { cfg, body: pattern(blen), label }
+    ReqSpec { cfg, body: pattern(blen), label, prep: None }
 }
 
 #[derive(Clone, Debug, PartialEq, Eq, Hash)]
